@@ -9,11 +9,15 @@ import (
 	"os"
 	"os/exec"
 	"path/filepath"
+	"regexp"
 	"sort"
+	"strconv"
 	"strings"
 	"syscall"
 
+	"potano.layercake/fns"
 	"potano.layercake/fs"
+	"potano.layercake/manage"
 )
 
 // C19: real helper processes with cwd / root / executable / open files inside layer
@@ -65,6 +69,27 @@ func runInuseHelper(spec string) {
 	fmt.Println("ready")
 	io.Copy(ioutil.Discard, os.Stdin)
 	_ = keep
+}
+
+var pidInParens = regexp.MustCompile(`\((\d+)\)`)
+
+// captureStdout runs f with os.Stdout redirected into a pipe and returns what was written
+func captureStdout(f func()) string {
+	r, w, err := os.Pipe()
+	if err != nil {
+		return ""
+	}
+	old := os.Stdout
+	os.Stdout = w
+	done := make(chan string)
+	go func() {
+		b, _ := ioutil.ReadAll(r)
+		done <- string(b)
+	}()
+	f()
+	w.Close()
+	os.Stdout = old
+	return <-done
 }
 
 func copyFile(src, dst string) error {
@@ -199,7 +224,33 @@ func runInuseScan(c Case) interface{} {
 		for _, r := range rows {
 			out = append(out, []interface{}{hx(r.layer), float64(r.idx), float64(r.usedAs), hx(r.file)})
 		}
-		return obj("cls", "ok", "uses", out)
+		// what `status <layer>` lists: every process that uses the layer, once
+		listed := []interface{}{}
+		layerNames := []string{}
+		for layer := range m {
+			layerNames = append(layerNames, layer)
+		}
+		sort.Strings(layerNames)
+		for _, layer := range layerNames {
+			text := captureStdout(func() {
+				tbl := fns.NewAdaptiveTable(" l    l")
+				var ld *manage.Layerdefs
+				ld.DescribeUsers(append([]fs.InUseProc(nil), m[layer]...), tbl)
+				tbl.Flush()
+			})
+			idxs := []int{}
+			for _, mm := range pidInParens.FindAllStringSubmatch(text, -1) {
+				pid, _ := strconv.Atoi(mm[1])
+				if idx, ok := pidIndex[pid]; ok {
+					idxs = append(idxs, idx)
+				}
+			}
+			sort.Ints(idxs)
+			for _, idx := range idxs {
+				listed = append(listed, []interface{}{hx(layer), float64(idx)})
+			}
+		}
+		return obj("cls", "ok", "uses", out, "listed", listed)
 	})
 }
 
@@ -250,6 +301,12 @@ func genC19(g *Gen, tier string, emit func(Case)) {
 				h["exe"] = hx(place() + "/bin/helper.bin")
 			}
 			fds := []string{}
+			if j > 0 && g.Chance(1, 4) {
+				// the same file held open by two processes
+				if prev := unhxs(hs[j-1].(map[string]interface{})["fds"]); len(prev) > 0 {
+					fds = append(fds, prev[0])
+				}
+			}
 			for q := g.Intn(3); q > 0; q-- {
 				if g.Chance(1, 2) {
 					fds = append(fds, place()+"/file.txt")
